@@ -78,6 +78,9 @@ func SymbolName(id int64) string {
 // BridgeGenesisTweak, when set, edits the ethbridge genesis of the next environments (pause flag, blacklist, token list).
 var BridgeGenesisTweak func(*ethbridgetypes.GenesisState)
 
+// BridgeWhitelistTweak, when set, edits the oracle genesis whitelist of the next environments (an entry listed twice).
+var BridgeWhitelistTweak func([]string) []string
+
 func NewBridge(powers []int64, whitelisted []bool, nUsers int) *BridgeEnv {
 	e := &BridgeEnv{AcctID: map[string]int64{}, AcctOf: map[int64]string{}, ValID: map[string]int64{}, ContentID: map[string]int64{},
 		Contents: map[int64]Content{}, ProphecyID: map[string]int64{}, EthAddrID: map[string]int64{}, Powers: powers}
@@ -102,6 +105,9 @@ func NewBridge(powers []int64, whitelisted []bool, nUsers int) *BridgeEnv {
 		if w {
 			wl = append(wl, sdk.ValAddress(e.Vals[i].Addr).String())
 		}
+	}
+	if BridgeWhitelistTweak != nil {
+		wl = BridgeWhitelistTweak(wl)
 	}
 	g.Transform = func(app *sifapp.SifchainApp, gs sifapp.GenesisState) sifapp.GenesisState {
 		og := oracletypes.GenesisState{AddressWhitelist: wl, AdminAddress: e.OracleAdm.Addr.String()}
